@@ -34,6 +34,9 @@ func c04Gen(seed int64, idx int) c04Shape {
 	sh.W = 1 + r.Intn(3)
 	sh.MFirst = r.Intn(2) == 0
 	sh.Casc = r.Intn(4) == 0
+	if sh.Trans == "return" && (idx/len(c04Trans))%2 == 1 && sh.N < 4 {
+		sh.N = 4 // (the baseline of these units is a swap - one member returns while another leaves - with a manager on a third host)
+	}
 	return sh
 }
 
@@ -464,6 +467,9 @@ func (m *c04Monitor) onListWrite(w *world.World, r fakezk.Rec) {
 		}
 		if len(removed) > 0 {
 			m.sc.Cover("eviction")
+			if mgr := m.managerHost(); mgr != "" && ms != nil && (!ms.Up || !w.ReachLocked(mgr, master)) {
+				m.sc.Violate("C04", "S3:eviction-while-the-master-is-unreachable", fmt.Sprintf("%s removed %v from the list at an instant at which it cannot reach the master %s (up=%v)", inst, removed, master, ms.Up))
+			}
 			if it.pingFailed || !it.pinged {
 				m.sc.Violate("C04", "S3:eviction-without-master-ping", fmt.Sprintf("%s removed %v from the list in an iteration in which the master did not answer its ping (pinged=%v failed=%v)", inst, removed, it.pinged, it.pingFailed))
 			}
@@ -486,6 +492,9 @@ func c04Scenario(u *Unit, name string, sh c04Shape, fault *c01Fault) (*Tracker, 
 			c.InactivationDelay = c04InactDelay
 			c.Failover = false
 		}}
+	if sh.Trans == "return" && fault == nil && sh.N >= 4 && (u.Idx/len(c04Trans))%2 == 1 {
+		opts.FirstDaemon = hosts[2] // the manager: neither on the master's host nor on one of the two members that move
+	}
 	spec := map[string]any{"shape": sh}
 	if fault != nil {
 		spec["fault"] = fault
@@ -542,6 +551,32 @@ func c04Scenario(u *Unit, name string, sh c04Shape, fault *c01Fault) (*Tracker, 
 		case "die":
 			s.W.Crash(subject)
 		case "return":
+			if fault == nil && sh.N >= 4 && (u.Idx/len(c04Trans))%2 == 1 {
+				// ... while another member leaves in the very same iteration, and the master becomes unreachable for the manager
+				// between the join's semi-sync statement and the publish step: as many join as leave, but somebody IS evicted
+				other := hosts[1]
+				s.W.Lock()
+				s.W.AfterStmt = append(s.W.AfterStmt, func(w *world.World, c *world.StmtCtx) {
+					if c.Class == "ss_slave" && c.Host == subject && instOfCaller(c.Caller) == mgr && c.Errno == 0 {
+						if in := s.InstByName(mgr); in != nil && !w.IsCutLocked(in.Host, hosts[0]) {
+							w.CutLocked(in.Host, hosts[0], true)
+							mon.MarkFault(mgr) // what follows in this iteration is an interrupted update, not a fault-free one
+							sc.Cover("master-lost-between-join-and-publish")
+						}
+					}
+				})
+				s.W.Unlock()
+				// (a member the operator turns into a cascade replica leaves in the next iteration that evaluates the list -
+				// the one in which the returned member joins)
+				s.ZK.Remove("operator", NS+"/ha_nodes/"+other)
+				s.ZK.Put("operator", NS+"/cascade_nodes/"+other, fmt.Sprintf(`{"stream_from":%q}`, hosts[0]))
+				s.W.Restart(subject)
+				time.Sleep(10 * time.Second)
+				if in := s.InstByName(mgr); in != nil {
+					s.W.Cut(in.Host, hosts[0], false)
+				}
+				break
+			}
 			s.W.Restart(subject)
 		case "io_broken":
 			s.W.Manual(subject, "io thread error 2003", func(x *world.Server) { x.LastIOErrno = 2003; x.StickyErr = true })
